@@ -16,14 +16,16 @@
 (*   Labels: for every side the consecutive steps that set it give         *)
 (*   <<class, class, trigger>>; trigger = whether at / after the second    *)
 (*   step all four longhands hold plain values of one importance (what a   *)
-(*   minifier needs to write the shorthand): "at", "later", "never".       *)
+(*   minifier needs to write the shorthand): "at", "later", "blocked"      *)
+(*   (they would later on, were it not for the second step), "never".      *)
 (*                                                                         *)
 (* rseq: three rules, each inside a stack of conditional wrappers (none,   *)
 (*   @media M, M inside M - a wrapper identical to its parent -, another   *)
 (*   medium inside M, @supports, @layer ...), selectors that overlap on    *)
 (*   the document, and bodies after a pattern (XYX: the first and third    *)
 (*   rule could be merged only ACROSS the second, which may win for an     *)
-(*   element).  Label = how the wrapper stacks relate and the pattern.     *)
+(*   element).  Label = how the wrapper stacks relate, whether a stack     *)
+(*   repeats a wrapper, and whether equal bodies are adjacent or across.   *)
 (***************************************************************************)
 EXTENDS Css
 
@@ -56,7 +58,8 @@ StepC(s) == ((s - 1) % 7) + 1
 StepValid(f, s) ==
   LET k == StepK(s) c == Classes[StepC(s)] IN
   /\ (k > 5 => c \notin {"wide", "var"})                       \* a keyword or var() is the whole value of a shorthand
-  /\ (f = "border-radius" => c # "auto" /\ ~(k = 5 /\ c = "var"))
+  /\ (f \in {"border-radius", "padding"} => c # "auto")           \* no `auto` there
+  /\ ~(f = "border-radius" /\ k = 5 /\ c = "var")
   /\ ~(f = "inset" /\ k = 5 /\ c = "var")                       \* `inset: var()` cannot be lowered at all (design.d/C12.md)
 ImpAt(ip, i, n) == CASE ip = 1 -> FALSE [] ip = 2 -> TRUE [] ip = 3 -> i = 2 [] ip = 4 -> i = n [] ip = 5 -> i = 1 [] OTHER -> i # 2
 StepDecl(f, i, s, imp) ==
@@ -92,7 +95,7 @@ SeqLaw(ds, L) ==
      Bind(FoldState(ds, feats, Len(ds), L), LAMBDA st : \A lh \in L : st[lh][2] = DeclWin(ds, feats, lh))
 
 \* labels
-PlainCanon(f) == LET P == {Canon(v) : v \in {NumVals[i] : i \in 1..5} \cup {"l0"} \cup (IF f = "border-radius" THEN {} ELSE {"auto"})}
+PlainCanon(f) == LET P == {Canon(v) : v \in {NumVals[i] : i \in 1..5} \cup {"l0"} \cup (IF f \in {"border-radius", "padding"} THEN {} ELSE {"auto"})}
                  IN IF f = "border-radius" THEN {x \o x : x \in P} ELSE P
 \* after step t (everything understood) the four longhands hold plain values of one importance
 Collapsible(f, ds, t) ==
@@ -109,7 +112,10 @@ ClassOn(s, k) ==
 SeqLabels(ch) ==
   LET f == SeqFams[ch[2]]  n == SeqLen(ch)  ds == SeqDecls(ch)
       col == {t \in 1..n : Collapsible(f, ds, t)}
-      Trig(j) == IF j \in col THEN "at" ELSE IF \E t \in col : t > j THEN "later" ELSE "never"
+      Without(j) == [m \in 1..(n - 1) |-> IF m < j THEN ds[m] ELSE ds[m + 1]]
+      \* "blocked": only step j stands between the rule and four plain longhands later on (its value must survive)
+      Trig(j) == IF j \in col THEN "at" ELSE IF \E t \in col : t > j THEN "later"
+                 ELSE IF \E t \in (j + 1)..n : Collapsible(f, Without(j), t - 1) THEN "blocked" ELSE "never"
   IN { <<ClassOn(ch[3 + i], k), ClassOn(ch[3 + j], k), Trig(j)>> :
          <<i, j, k>> \in {x \in (1..n) \X (1..n) \X (1..4) :
                             /\ x[1] < x[2] /\ ClassOn(ch[3 + x[1]], x[3]) # "" /\ ClassOn(ch[3 + x[2]], x[3]) # ""
@@ -130,7 +136,8 @@ WRel(a, b) == IF a = b THEN "eq" ELSE IF IsProperPrefix(a, b) THEN "in" ELSE IF 
 HasDup(w) == \E i \in 1..(Len(w) - 1) : w[i] = w[i + 1]
 RSeqLabels(ch) ==
   LET a == RWraps[ch[2]] b == RWraps[ch[3]] c == RWraps[ch[4]] IN
-  { <<WRel(a, b), WRel(b, c), IF HasDup(b) THEN "dup" ELSE IF HasDup(a) \/ HasDup(c) THEN "dup-outer" ELSE "nodup", ch[6]>> }
+  { <<WRel(a, b), WRel(b, c), IF HasDup(b) THEN "dup" ELSE IF HasDup(a) \/ HasDup(c) THEN "dup-outer" ELSE "nodup",
+     IF RBodies[ch[6]] = <<1, 2, 1>> THEN "across" ELSE "adjacent">> }
 
 \* the sheet / labels of a choice of either family
 ChoiceSheet(ch) == IF ch[1] = "dseq" THEN SeqSheet(ch) ELSE RSeqSheet(ch)
